@@ -35,18 +35,26 @@ fit. -/
 theorem core_update {ex : Option Nat} {s t : State} (c : Core ex s) (h : Nat) (o : Obj)
     (hn : ¬ Live s h) (hex : some h ≠ ex)
     (ho : ∀ y, t.objs.get y = if h = y then some o else s.objs.get y) (e1 : t.hosts = s.hosts) (e2 : t.more = s.more) (e3 : t.indexes = s.indexes)
-    (e4 : t.rindexes = s.rindexes) (e5 : t.relays = s.relays)
+    (e4 : t.rindexes = s.rindexes) (e5 : t.relays = s.relays) (e6 : t.rs = s.rs)
+    (hnr : ∀ i, ((s.rstate h).byIdx.get i).isSome = false)
     (hv : ∀ a x, t.vpnIps.get a = some x →
       if x = h then (o.addrs = [a] ∧ s.indexes.get o.lidx ≠ some h) else s.vpnIps.get a = some x)
     (hp : ∀ i x, t.pidx.get i = some x →
       if x = h then (o.lidx = i ∧ i ≠ 0 ∧ s.indexes.get i = none ∧ o.ready = true) else s.pidx.get i = some x)
-    (hnx : ∀ x, t.next ≤ x → s.next ≤ x ∧ x ≠ h) : Core ex t := by
+    (hnx : ∀ x, t.next ≤ x → s.next ≤ x ∧ x ≠ h)
+    (hvr : ∀ a, t.vpnIps.get a = some h → o.ready = true → t.pidx.get o.lidx = some h)
+    (hpk : ∀ i x, x ≠ h → s.pidx.get i = some x → t.pidx.get i = some x) : Core ex t := by
   obtain ⟨u1, u2, u3, u4⟩ := not_live_unref c hn hex
   have hl : ∀ a, hostList t a = hostList s a := hostList_congr e1 e2
   have objne : ∀ x, x ≠ h → t.obj x = s.obj x := fun x hx => obj_set_ne s h x o hx t ho
   have liveKeep : ∀ x, x ≠ h → (Live t x ↔ Live s x) := by
     intro x hx; simp only [Live, objne x hx, e3]
-  refine ⟨?_, ?_, ?_, ?_, ?_, ?_, ?_, ?_, ?_, ?_⟩
+  have rst : ∀ x, t.rstate x = s.rstate x := fun x => by simp [State.rstate, e6]
+  have notLiveH : ¬ Live t h := by
+    intro l
+    simp only [Live, obj_set_eq s h o t ho, e3] at l
+    exact u2 _ l
+  refine ⟨?_, ?_, ?_, ?_, ?_, ?_, ?_, ?_, ?_, ?_, ?_, ?_, ?_, ?_⟩
   · intro a l hm; rw [e2] at hm; rw [e1]; exact c.rep a l hm
   · intro a x hx
     rw [hl] at hx
@@ -72,9 +80,31 @@ theorem core_update {ex : Option Nat} {s t : State} (c : Core ex s) (h : Nat) (o
   · intro i x hx
     rw [e5] at hx
     have hxh : x ≠ h := fun e => u4 i (e ▸ hx)
-    rw [objne x hxh]
+    rw [rst]
     obtain ⟨p1, p2⟩ := c.rel i x hx
     exact ⟨(liveKeep x hxh).mpr p1, p2⟩
+  · intro x i hl hk
+    have hxh : x ≠ h := by rintro rfl; exact notLiveH hl
+    rw [rst] at hk; rw [e5]
+    exact c.relOwn x i ((liveKeep x hxh).mp hl) hk
+  · intro x; rw [rst]; exact c.rok x
+  · intro x i hk
+    rw [rst] at hk
+    have hxh : x ≠ h := by
+      rintro rfl
+      rw [hnr i] at hk; cases hk
+    obtain ⟨p1, p2, p3, p4⟩ := c.rsPend x i hk
+    refine ⟨?_, ?_, ?_, p4⟩
+    · apply Nat.lt_of_not_le; intro hle
+      have := (hnx x hle).1; omega
+    · intro j hj
+      have := hp j x hj
+      simp only [hxh, ↓reduceIte] at this
+      exact p2 j this
+    · intro a ha
+      have := hv a x ha
+      simp only [hxh, ↓reduceIte] at this
+      exact p3 a this
   · intro i x hx
     have := hp i x hx
     by_cases hxh : x = h
@@ -97,6 +127,14 @@ theorem core_update {ex : Option Nat} {s t : State} (c : Core ex s) (h : Nat) (o
   · intro x hx
     obtain ⟨p1, p2⟩ := hnx x hx
     rw [ho]; simp [Ne.symm p2, c.fresh x p1]
+  · intro a x hx hr
+    by_cases hxh : x = h
+    · subst hxh
+      rw [obj_set_eq s x o t ho] at hr ⊢; exact hvr a hx hr
+    · have := hv a x hx
+      simp only [hxh, ↓reduceIte] at this
+      rw [objne x hxh] at hr ⊢
+      exact hpk _ x hxh (c.vpnReady a x this hr)
 
 /-! ### `HandshakeManager.unlockedDeleteHostInfo` -/
 
@@ -104,7 +142,7 @@ theorem pendingLoop_spec (h : Nat) (l : List Nat) : ∀ s : State,
     let r := l.foldl (fun s a => if s.vpnIps.get a = some h then { s with vpnIps := s.vpnIps.del a } else s) s
     (∀ a, r.vpnIps.get a = if a ∈ l ∧ s.vpnIps.get a = some h then none else s.vpnIps.get a) ∧
     r.hosts = s.hosts ∧ r.more = s.more ∧ r.indexes = s.indexes ∧ r.rindexes = s.rindexes ∧ r.relays = s.relays ∧
-    r.objs = s.objs ∧ r.pidx = s.pidx ∧ r.next = s.next := by
+    r.objs = s.objs ∧ r.pidx = s.pidx ∧ r.next = s.next ∧ r.rs = s.rs := by
   induction l with
   | nil => intro s; simp
   | cons x t ih =>
@@ -112,7 +150,7 @@ theorem pendingLoop_spec (h : Nat) (l : List Nat) : ∀ s : State,
     simp only [List.foldl_cons]
     generalize hs' : (if s.vpnIps.get x = some h then { s with vpnIps := s.vpnIps.del x } else s) = s'
     have fr : s'.hosts = s.hosts ∧ s'.more = s.more ∧ s'.indexes = s.indexes ∧ s'.rindexes = s.rindexes ∧
-        s'.relays = s.relays ∧ s'.objs = s.objs ∧ s'.pidx = s.pidx ∧ s'.next = s.next := by
+        s'.relays = s.relays ∧ s'.objs = s.objs ∧ s'.pidx = s.pidx ∧ s'.next = s.next ∧ s'.rs = s.rs := by
       rw [← hs']; split <;> simp
     have fv : ∀ a, s'.vpnIps.get a = if a = x ∧ s.vpnIps.get a = some h then none else s.vpnIps.get a := by
       intro a; rw [← hs']
@@ -125,9 +163,10 @@ theorem pendingLoop_spec (h : Nat) (l : List Nat) : ∀ s : State,
         by_cases e : a = x
         · subst e; simp [c]
         · simp [e]
-    obtain ⟨g1, g2, g3, g4, g5, g6, g7, g8, g9⟩ := ih s'
+    obtain ⟨g1, g2, g3, g4, g5, g6, g7, g8, g9, g10⟩ := ih s'
     refine ⟨fun a => ?_, g2.trans fr.1, g3.trans fr.2.1, g4.trans fr.2.2.1, g5.trans fr.2.2.2.1,
-      g6.trans fr.2.2.2.2.1, g7.trans fr.2.2.2.2.2.1, g8.trans fr.2.2.2.2.2.2.1, g9.trans fr.2.2.2.2.2.2.2⟩
+      g6.trans fr.2.2.2.2.1, g7.trans fr.2.2.2.2.2.1, g8.trans fr.2.2.2.2.2.2.1, g9.trans fr.2.2.2.2.2.2.2.1,
+      g10.trans fr.2.2.2.2.2.2.2.2⟩
     rw [g1 a, fv a]
     by_cases e : a = x
     · subst e
@@ -144,21 +183,22 @@ structure PendingDeleteSpec (s : State) (h : Nat) (t : State) : Prop where
   relays : t.relays = s.relays
   objs : t.objs = s.objs
   next : t.next = s.next
+  rs : t.rs = s.rs
 
 theorem pendingDelete_spec (s : State) (h : Nat) : PendingDeleteSpec s h (pendingDelete s h) := by
-  obtain ⟨g1, g2, g3, g4, g5, g6, g7, g8, g9⟩ := pendingLoop_spec h (s.obj h).addrs s
+  obtain ⟨g1, g2, g3, g4, g5, g6, g7, g8, g9, g10⟩ := pendingLoop_spec h (s.obj h).addrs s
   simp only [pendingDelete]
   generalize (s.obj h).addrs.foldl _ s = s1 at *
   by_cases c : s1.pidx.get (s.obj h).lidx = some h
   · simp only [c, ↓reduceIte]
-    refine ⟨g1, fun i => ?_, g2, g3, g4, g5, g6, g7, g9⟩
+    refine ⟨g1, fun i => ?_, g2, g3, g4, g5, g6, g7, g9, g10⟩
     simp only [get_del]
     rw [g8] at c ⊢
     by_cases e : (s.obj h).lidx = i
     · subst e; simp [c]
     · simp [e, Ne.symm e]
   · simp only [c, ↓reduceIte]
-    refine ⟨g1, fun i => ?_, g2, g3, g4, g5, g6, g7, g9⟩
+    refine ⟨g1, fun i => ?_, g2, g3, g4, g5, g6, g7, g9, g10⟩
     rw [g8] at c ⊢
     by_cases e : i = (s.obj h).lidx
     · subst e; simp [c]
@@ -171,14 +211,27 @@ theorem pendingDelete_core {s : State} (c : Core none s) (h : Nat) : Core none (
   have obj : ∀ x, t.obj x = s.obj x := fun x => by simp [State.obj, d.objs]
   have hl : ∀ a, hostList t a = hostList s a := hostList_congr d.hosts d.more
   have lv : ∀ x, Live t x ↔ Live s x := fun x => by simp [Live, obj, d.indexes]
-  refine ⟨?_, ?_, ?_, ?_, ?_, ?_, ?_, ?_, ?_, ?_⟩
+  have rst : ∀ x, t.rstate x = s.rstate x := fun x => by simp [State.rstate, d.rs]
+  refine ⟨?_, ?_, ?_, ?_, ?_, ?_, ?_, ?_, ?_, ?_, ?_, ?_, ?_, ?_⟩
   · intro a l hm; rw [d.more] at hm; rw [d.hosts]; exact c.rep a l hm
   · intro a x hx; rw [hl] at hx; rw [obj, lv]; exact c.listOk a x hx
   · intro a; rw [hl]; exact c.nodup a
   · intro i x hx; rw [d.indexes] at hx; rw [obj]; exact c.idx i x hx
   · intro i x hx a ha; rw [d.indexes] at hx; rw [obj] at ha; rw [hl]; exact c.reach i x hx a ha
   · intro r x hx; rw [d.rindexes] at hx; rw [obj, lv]; exact c.ridx r x hx
-  · intro i x hx; rw [d.relays] at hx; rw [obj, lv]; exact c.rel i x hx
+  · intro i x hx; rw [d.relays] at hx; rw [rst, lv]; exact c.rel i x hx
+  · intro x i hl hk; rw [lv] at hl; rw [rst] at hk; rw [d.relays]; exact c.relOwn x i hl hk
+  · intro x; rw [rst]; exact c.rok x
+  · intro x i hk
+    rw [rst] at hk
+    obtain ⟨p1, p2, p3, p4⟩ := c.rsPend x i hk
+    refine ⟨by rw [d.next]; exact p1, fun j hj => ?_, fun a ha => ?_, p4⟩
+    · rw [d.pidx] at hj; split at hj
+      · cases hj
+      · exact p2 j hj
+    · rw [d.vpnIps] at ha; split at ha
+      · cases ha
+      · exact p3 a ha
   · intro i x hx
     rw [d.pidx] at hx
     split at hx
@@ -190,5 +243,18 @@ theorem pendingDelete_core {s : State} (c : Core none s) (h : Nat) : Core none (
     · cases hx
     · rw [obj, lv]; exact c.vpn a x hx
   · intro x hx; rw [d.next] at hx; rw [d.objs]; exact c.fresh x hx
+  · intro a x hx hr
+    rw [d.vpnIps] at hx
+    split at hx
+    · cases hx
+    · rename_i hn
+      rw [obj] at hr ⊢
+      have hp := c.vpnReady a x hx hr
+      rw [d.pidx, if_neg]; exact hp
+      rintro ⟨_, h2⟩
+      rw [hp] at h2
+      have : x = h := Option.some.inj h2
+      subst this
+      exact hn ⟨by rw [(c.vpn a x hx).1]; simp, hx⟩
 
 end Nebula.HostMap
